@@ -495,7 +495,8 @@ def relay_variants(scens, tier, rng, every=4):
             continue
         c = copy.deepcopy(s)
         c['topo'] = 'pd'
-        c['tag'] = 'via proxy+demux: ' + c.get('tag', '')
+        c['ser'] = bool(len(out) % 2)        # both encodings of the relay links: serialising and by reference
+        c['tag'] = 'via proxy+demux (%s): ' % ('serialising' if c['ser'] else 'by reference') + c.get('tag', '')
         calls = sorted({st['c'] for st in c['steps'] if st.get('op') in ('ucall', 'sopen')})
         if len(calls) >= 2 and not c.get('manual'):
             c['ncli'] = 2
